@@ -16,10 +16,10 @@ BxFull == { B(0, 0, 4, 4, 0), B(0, 0, 2, 2, 0), B(1, 0, 4, 3, 0), B(2, 1, 4, 2, 
             B(1, 1, 2, 3, 1), B(3, 0, 2, 4, 2), B(9, 9, 2, 2, 0), B(0, 0, 0, 2, 0), B(0, 0, 2, 0, 0) }
 BxSmall == { B(0, 0, 4, 4, 0), B(0, 0, 2, 2, 0), B(1, 0, 4, 3, 0), B(0, 0, 4, 2, 1), B(1, 1, 2, 3, 1), B(0, 0, 0, 2, 0) }
 Bx == IF Grid = "small" THEN BxSmall ELSE BxFull
-Scores == IF Grid = "full" THEN {-1, 120, 260} ELSE {-1, 120}
+Scores == IF Grid = "full" THEN {NoScore, 120, 260, -20} ELSE {NoScore, 120, -20}
 Dt == [box : Bx, score : Scores]
 Thrs == IF Grid = "full" THEN {<<3, 10>>, <<1, 2>>, <<7, 10>>} ELSE {<<3, 10>>, <<7, 10>>}
-SThrs == IF Grid = "full" THEN {-1, 100, 200, 300} ELSE {-1, 100, 200}
+SThrs == IF Grid = "full" THEN {NoScore, 100, 200, 300} ELSE {NoScore, 100, 200}
 Init == stage = 0 /\ dets = <<>>
 Next ==
   \/ /\ stage = 0 /\ stage' = 1
